@@ -1,12 +1,12 @@
 CONSTANTS
   Configs <- TierConfigs
-  Tier = "mid"
+  Tier = "nv"
   CyclesFromEveryNode = TRUE
-  RefDepthChecked = TRUE
+  RefDepthChecked = FALSE
   ExitLinked = TRUE
   StopAfterAnswer = TRUE
-  ResumeAllEdges = FALSE
+  ResumeAllEdges = TRUE
   StepCap = 600
+  CheckLoader = TRUE
 SPECIFICATION Spec
 CHECK_DEADLOCK FALSE
-INVARIANT FollowsGraph
